@@ -272,6 +272,9 @@ func runTScenario(t *testing.T, raw []byte) (lines []M, problem string) {
 					if rec.alt&2 != 0 {
 						ex = ex.WithContext(ctx).WithContext(nil)
 					}
+					if rec.alt&1 != 0 {
+						_ = ex.WithContext(decoyCtx()) // WithContext returns a copy: the executor it was called on keeps its own context
+					}
 					x := e.X
 					if sc.NoCtx {
 						// one executor for every execution of the scenario, no context of its own per execution
